@@ -163,7 +163,7 @@ def _run_impl(exe, cases, timeout, env, wrap):
     return results, aborts
 
 
-def run_driver(impl_results, order, args=None, timeout=600):
+def run_driver(impl_results, order, args=None, timeout=1800):
     text = []
     for c in order:
         text.append('CASE ' + c)
@@ -195,6 +195,15 @@ def judge(case, I, MS, segs=None):
     corr failure: implementation differs from the model (where the model is defined).  Only the segments the property
     is about are compared."""
     Il, M, S = triples(case, I, MS)
+    # a spec line "<code> | -777" (CodesSpec.v) speaks about the result code alone: compare the first segment here, then no opinion
+    code_fail = None
+    for k, s_ in enumerate(S):
+        if s_ not in ('-',) and '|' in s_ and s_.split('|', 1)[1].strip() == '-777':
+            want = s_.split('|', 1)[0].strip()
+            if k < len(Il) and Il[k] not in ('MISSING', 'ABORT', 'NOTRUN'):
+                got = Il[k].split('|', 1)[0].strip()
+                if got != want and code_fail is None: code_fail = (k, got, want)
+            S[k] = '-'
     if callable(segs):        # per-line selection: segs(case, k) -> list of segments, None (all) or 'skip'
         sel = [segs(case, k) for k in range(max(len(Il), len(M), len(S)))]
         pr = lambda xs: [('-' if (k < len(sel) and sel[k] == 'skip') else project(x, sel[k] if k < len(sel) else None)) for k, x in enumerate(xs)]
@@ -224,6 +233,10 @@ def judge(case, I, MS, segs=None):
             prop_ok = False
             if step is None: step = k
             detail = ('spec', k, i, s)
+        if code_fail is not None and code_fail[0] == k and prop_ok:
+            prop_ok = False
+            if step is None: step = k
+            detail = ('spec', k, code_fail[1], code_fail[2] + ' (result code; the spec speaks of the code alone after a forced call)')
         if m is not None and i != m and corr_ok:
             corr_ok = False
             if step is None: step = k
